@@ -638,12 +638,25 @@ def m_cov_nan(df, t, rng):
     return df
 
 
+def _set_time_nullable(df, rng):
+    """A missing age in a TIME column of pandas' nullable dtype (what ``DataFrame.convert_dtypes`` produces)."""
+    out = _set_time(df, rng, np.nan)
+    if out is None:
+        return None
+    if "TIME" in out.columns:
+        out = out.assign(TIME=out["TIME"].astype("Float64"))
+    else:
+        return None
+    return out
+
+
 VISIT_FAMILY = {
     "dup_visit_exact": m_dup_visit_exact,
     "dup_visit_rounding": m_dup_visit_rounding,
     "age_nan": lambda df, t, rng: _set_time(df, rng, np.nan),
     "age_posinf": lambda df, t, rng: _set_time(df, rng, np.inf),
     "age_neginf": lambda df, t, rng: _set_time(df, rng, -np.inf),
+    "age_na_nullable_dtype": lambda df, t, rng: _set_time_nullable(df, rng),
     "value_str_column": m_value_str_column,
     "value_str_cell": m_value_str_cell,
     "value_complex": m_value_complex,
